@@ -281,6 +281,13 @@ class FortranAST:
                             child.update_fqsn(parent_scope.FQSN)
                     include_ast.none_scope = parent_scope
                     inc.scope_objs = added_entities
+            elif inc.file is not None:
+                # The included file is gone: so are the entities it contributed
+                for obj in added_entities:
+                    if parent_scope is not None and obj in parent_scope.children:
+                        parent_scope.children.remove(obj)
+                inc.scope_objs = []
+                inc.file = None
 
     def resolve_links(self, obj_tree, link_version):
         # Declared types are looked up lazily and cached: the cached object may
